@@ -256,7 +256,7 @@ def s_width(ex, st, fr, text, args):
     return Native('optwidth', (args[0],))
 
 
-@summary(r'^(std::option::)?Option::<usize>::unwrap_or$', 'Option::unwrap_or')
+@summary(r'^(std::option::)?Option::<(u8|u16|u32|u64|usize|char|bool)>::unwrap_or$', 'Option::unwrap_or')
 def s_unwrap_or(ex, st, fr, text, args):
     o, d = args
     if isinstance(o, Native) and o.tag == 'optwidth':
@@ -531,6 +531,106 @@ def s_binary_search_by(ex, st, fr, text, args):
     return Multi(out)
 
 
+def _bsearch(ex, st, sl, compare):
+    """probe sequence of slice::binary_search_by; compare(state, element ref) -> [(state, 'Less'|'Equal'|'Greater' | PanicResult)]"""
+    arr = ex.deref(st, sl)
+    if isinstance(arr, Native) and arr.tag == 'vec':
+        n = len(arr.p[0])
+    elif isinstance(arr, A):
+        n = len(arr.f)
+    else:
+        raise Inconclusive('binary search over %r' % (arr,))
+    out = []
+    if n == 0:
+        return E('Err', (S(64, 0),))
+
+    def elem(i):
+        return Ref(sl.fid, sl.local, sl.path + (('i', i),))
+
+    def go(s, size, base):
+        if size > 1:
+            half = size // 2
+            mid = base + half
+            for s2, o in compare(s, elem(mid)):
+                if isinstance(o, PanicResult):
+                    out.append((s2, o))
+                else:
+                    go(s2, size - half, base if o == 'Greater' else mid)
+            return
+        for s2, o in compare(s, elem(base)):
+            if isinstance(o, PanicResult):
+                out.append((s2, o))
+            elif o == 'Equal':
+                out.append((s2, E('Ok', (S(64, base),))))
+            else:
+                out.append((s2, E('Err', (S(64, base + (1 if o == 'Less' else 0)),))))
+    go(st, n, 0)
+    return Multi(out)
+
+
+@summary(r'^core::slice::<impl \[.*\]>::binary_search_by_key::<', 'slice::binary_search_by_key(b, f) = binary_search_by(|k| f(k).cmp(b)): same probe sequence; f is the real closure, the comparison of unsigned keys forks three ways')
+def s_binary_search_by_key(ex, st, fr, text, args):
+    sl, bref, clo = args
+    b = ex.deref(st, bref) if isinstance(bref, Ref) else bref
+
+    def compare(s, eref):
+        res = []
+        for kind, s2, v in call_closure(ex, s, clo, [eref]):
+            if kind != 'return':
+                res.append((s2, PanicResult(str(v))))
+                continue
+            if not isinstance(v, S) or not isinstance(b, S):
+                raise Inconclusive('binary_search_by_key on non-scalar keys')
+            if v.conc() and b.conc():
+                res.append((s2, 'Less' if v.v < b.v else 'Equal' if v.v == b.v else 'Greater'))
+                continue
+            for cond, o in ((v.v < b.v, 'Less'), (v.v == b.v, 'Equal'), (v.v > b.v, 'Greater')):
+                ok, ms = ex.sat_under(s2, cond)
+                if not ok:
+                    continue
+                s3 = s2.fork()
+                s3.pc.append(cond)
+                s3.models = ms
+                res.append((s3, o))
+        return res
+    return _bsearch(ex, st, sl, compare)
+
+
+@summary(r'^core::slice::<impl \[.*\]>::get::<usize>$', 'slice::get(i): Some(&s[i]) if i < len else None (concrete index)')
+def s_slice_get(ex, st, fr, text, args):
+    sl, i = args
+    arr = ex.deref(st, sl)
+    if not isinstance(i, S) or not i.conc():
+        raise Inconclusive('slice::get with a symbolic index')
+    n = len(arr.p[0]) if isinstance(arr, Native) and arr.tag == 'vec' else len(arr.f) if isinstance(arr, A) else None
+    if n is None:
+        raise Inconclusive('slice::get over %r' % (arr,))
+    if i.v < n:
+        return E('Some', (Ref(sl.fid, sl.local, sl.path + (('i', i.v),)),))
+    return E('None')
+
+
+@summary(r'^core::num::<impl (u8|u16|u32|u64|usize)>::checked_sub$', 'uN::checked_sub (concrete operands)')
+def s_checked_sub(ex, st, fr, text, args):
+    a, b = args
+    if not (a.conc() and b.conc()):
+        raise Inconclusive('checked_sub on symbolic operands')
+    return E('Some', (S(a.w, a.v - b.v),)) if a.v >= b.v else E('None')
+
+
+@summary(r'^(core::hint::|std::hint::)?assert_unchecked$', 'hint::assert_unchecked(c): c must hold on every path that reaches it (undefined behaviour otherwise): a feasible violation ends the run as inconclusive')
+def s_assert_unchecked(ex, st, fr, text, args):
+    c = args[0]
+    if c.conc():
+        if not c.v:
+            raise Inconclusive('assert_unchecked(false) reached: undefined behaviour')
+        return UNIT
+    ok, _ = ex.sat_under(st, z3.Not(zbool(c.v)))
+    if ok:
+        raise Inconclusive('assert_unchecked may be violated: undefined behaviour')
+    return UNIT
+
+
 @summary(r'^(std::result::)?Result::<.*>::is_ok$', 'Result::is_ok')
 def s_is_ok(ex, st, fr, text, args):
     v = ex.deref(st, args[0])
@@ -644,6 +744,42 @@ def s_opt_map(ex, st, fr, text, args):
     if o.v == 'None':
         return none()
     return Multi([(s2, v if isinstance(v, PanicResult) else some(v)) for s2, v in _call_any(ex, st, f, [o.f[0]])])
+
+
+@summary(r'^(std::option::)?Option::<.*>::and_then::<', 'Option::and_then(f)')
+def s_opt_and_then(ex, st, fr, text, args):
+    o, f = args
+    if o.v == 'None':
+        return none()
+    return Multi(_call_any(ex, st, f, [o.f[0]]))
+
+
+@summary(r'^core::slice::<impl \[.*\]>::partition_point::<', 'slice::partition_point(pred) = binary_search_by(|x| if pred(x) { Less } else { Greater }).unwrap_or_else(|i| i): same probe sequence; pred is the real closure')
+def s_partition_point(ex, st, fr, text, args):
+    sl, clo = args
+
+    def compare(s, eref):
+        res = []
+        for kind, s2, v in call_closure(ex, s, clo, [eref]):
+            if kind != 'return':
+                res.append((s2, PanicResult(str(v))))
+                continue
+            if v.conc():
+                res.append((s2, 'Less' if v.v else 'Greater'))
+                continue
+            b = zbool(v.v)
+            for cond, o in ((b, 'Less'), (z3.Not(b), 'Greater')):
+                ok, ms = ex.sat_under(s2, cond)
+                if ok:
+                    s3 = s2.fork()
+                    s3.pc.append(cond)
+                    s3.models = ms
+                    res.append((s3, o))
+        return res
+    r = _bsearch(ex, st, sl, compare)
+    if isinstance(r, Multi):
+        return Multi([(s2, v if isinstance(v, PanicResult) else v.f[0]) for s2, v in r.results])
+    return r.f[0]
 
 
 # ------------------------------------------------------------------------------------------------
